@@ -97,3 +97,15 @@ Example C14_ord_examples :
   ord_of_ymd 2019 2 29 = None /\ ord_of_ymd 1900 2 29 = None /\ ord_of_ymd 2000 2 29 = Some 730178 /\
   ord_of_ymd 0 1 1 = None /\ ord_of_ymd 10000 1 1 = None /\ ord_of_ymd 9999 12 31 = Some MAX_ORD.
 Proof. vm_compute. repeat split. Qed.
+
+(* ---- Proofs.DottedFacts ---- *)
+From Coq Require Import List Bool NArith ZArith Arith.
+From BV Require Import Lib.PyStr Lib.Decimal Lib.Calendar Model.CalKeys Model.Pep440 Proofs.DottedFacts.
+Import ListNotations.
+Theorem C14_parse_rendered_key : forall k : list cfield, In k coherent_keys -> forall n : Z, parse_pep440 (dotted (zkey k n)) = Some {| pv_epoch := 0; pv_release := zkey k n; pv_pre := None; pv_post := None; pv_dev := None; pv_local := None |}.
+Proof. exact parse_rendered_key. Qed.
+Print Assumptions C14_parse_rendered_key.
+
+Theorem C14_render_mono_dotted : forall k : list cfield, In k coherent_keys -> forall n m : Z, (0 <= n <= m)%Z -> ver_le (dotted (zkey k n)) (dotted (zkey k m)) = true.
+Proof. exact render_mono_dotted. Qed.
+Print Assumptions C14_render_mono_dotted.
